@@ -547,9 +547,8 @@ class Tracker(object):
                     return None
             self.disk["layers"].append(dict(name=name, glyphs=copy.deepcopy(glyphs), lib=True))
             self.layers[name] = dict((n, tglyph(G)) for n, G in glyphs.items())
-            # incidental defcon behaviour: LayerSet.reloadLayers hands the new layer a glyph set of a reader it
-            # closes on return, so the layer cannot read from disk again (reloadGlyphs on it raises)
-            self.closed_fs.add(name)
+            # (LayerSet.reloadLayers used to hand the new layer a glyph set of a reader it closed on return, so that
+            # reloadGlyphs on it raised; repaired in /repo 3897bb3: such layers are reloaded like any other)
             expect = set(LAYER_SHELL)
             for G in glyphs.values():
                 expect |= GLYPH_SHELL | glyph_roles(G)
@@ -563,7 +562,11 @@ class Tracker(object):
                 return "reload", expect
             if part in self.touched:
                 if part == "info":
-                    self.fg_mem = 0
+                    # reloadInfo reloads the font guidelines stored in fontinfo.plist (repaired in /repo 2953b5b;
+                    # it used to drop them): new guideline objects, made by the font's guideline slot
+                    self.fg_mem = self.disk.get("fontGuidelines", 0)
+                    if self.fg_mem:
+                        expect.add("guideline")
                 return "reload", expect
             self.touch(part, expect)
             return "reload", expect
